@@ -1,6 +1,6 @@
 (* C05 — pinned statements only. *)
 From Coq Require Import List Bool Arith ZArith.
-From Verif Require Import Conc.Model Conc.Steps Conc.Proofs Conc.Ids Conc.Run Conc.Sound Conc.Sim Conc.SeqFacts Conc.Cache gen.Gen_Cache.
+From Verif Require Import Conc.Model Conc.Steps Conc.Proofs Conc.Ids Conc.Run Conc.Sound Conc.Sim Conc.SeqFacts Conc.Cache gen.Gen_Cache Conc.FlushMeta gen.Gen_FlushMeta.
 Import ListNotations.
 Open Scope Z_scope.
 
@@ -209,6 +209,58 @@ Proof.
   split; [repeat (constructor; [first [left; reflexivity|right; reflexivity]|]); constructor|]. split; [vm_compute; reflexivity|auto].
 Qed.
 Print Assumptions C05_cache_fetch_before_load_refuted.
+
+(* ------------------------------------------------------------------ flush metadata vs gate-free extension writers *)
+(* Collection::store_metadata as regenerated from the source: snapshot, PUT of the snapshot,
+   watermark advanced to THE SNAPSHOT'S version; the no-op fast path exists *)
+Theorem C05_flush_metadata_program :
+  store_metadata_program = good_flush /\ store_metadata_has_fast_path = true.
+Proof. split; reflexivity. Qed.
+Print Assumptions C05_flush_metadata_program.
+
+(* Any number of flushes running the generated program and of extension writers that take no
+   gate (so they also run between the steps of a flush), any interleaving, followed by a flush
+   that runs alone: meta.cbor holds exactly the in-memory metadata — no acknowledged write is
+   skipped by the no-op fast path, what a flush persists is a prefix of the mutation log. *)
+Theorem C05_flush_persists_every_acknowledged_write :
+  forall ths sched q,
+    Forall (fun th => th = Flusher store_metadata_program None \/ exists l, th = ExtWriter l) ths ->
+    nth_error ths q = Some (Flusher store_metadata_program None) -> ~ In q sched ->
+    let s := mrun (minit ths) sched in
+    m_busy s = None ->
+    let s' := mrun s [q; q; q] in
+    m_persist s' = m_log s' /\ m_log s' = m_log s.
+Proof.
+  destruct C05_flush_metadata_program as (E & _). rewrite E. exact flush_converges.
+Qed.
+Print Assumptions C05_flush_persists_every_acknowledged_write.
+
+Theorem C05_flush_persists_a_prefix :
+  forall ths sched,
+    Forall (fun th => th = Flusher store_metadata_program None \/ exists l, th = ExtWriter l) ths ->
+    let s := mrun (minit ths) sched in
+    m_persist s = firstn (List.length (m_persist s)) (m_log s) /\ (m_saved s <= List.length (m_persist s))%nat.
+Proof.
+  destruct C05_flush_metadata_program as (E & _). rewrite E. intros ths sched H s.
+  destruct (minv_run sched _ (minv_init _ H)) as (P & S & _). split; auto.
+Qed.
+Print Assumptions C05_flush_persists_a_prefix.
+
+(* advancing the watermark to the LIVE version is wrong: an extension written while the PUT is
+   in flight is recorded as saved, the next flush (alone) is a no-op and meta.cbor lacks it *)
+Theorem C05_flush_record_live_version_refuted :
+  exists ths sched q,
+    Forall (fun th => th = Flusher [FSnap; FPut; FRecordLive] None \/ exists l, th = ExtWriter l) ths /\
+    nth_error ths q = Some (Flusher [FSnap; FPut; FRecordLive] None) /\ ~ In q sched /\
+    m_busy (mrun (minit ths) sched) = None /\
+    m_persist (mrun (mrun (minit ths) sched) [q; q; q]) <> m_log (mrun (mrun (minit ths) sched) [q; q; q]).
+Proof.
+  exists [Flusher bad_flush None; ExtWriter [1]; ExtWriter [2]; Flusher bad_flush None]%nat, [1; 0; 0; 2; 0]%nat, 3%nat.
+  split; [repeat (constructor; [first [left; reflexivity|right; eexists; reflexivity]|]); constructor|].
+  split; [reflexivity|]. split; [simpl; intuition discriminate|]. split; [vm_compute; reflexivity|].
+  vm_compute. discriminate.
+Qed.
+Print Assumptions C05_flush_record_live_version_refuted.
 
 (* ------------------------------------------------------------------ non-vacuity *)
 (* two updates of document 1 and a remove of it: after thread 0 took the lock, thread 1 is blocked *)
